@@ -1,10 +1,12 @@
 #!/bin/sh
 # usage: seedtest.sh <PROP> <patch> <demo_test.go> <pkgdir>   -- confirms a seeded change and runs the check against it
-# (scratch worktree /tmp/mut; nothing is applied to /repo)
+# (scratch worktree /tmp/mut.<pid>, removed afterwards; nothing is applied to /repo)
 P=$1; PATCH=$2; DEMO=$3; PKG=$4
 export GOFLAGS=-mod=mod GOPROXY=off GOSUMDB=off GOTOOLCHAIN=local
-cd /repo && (git worktree list | grep -q /tmp/mut || git worktree add -q /tmp/mut HEAD)
-cd /tmp/mut && git checkout -q --detach $(git -C /repo rev-parse HEAD) 2>/dev/null; git checkout -q -- . ; git clean -fdq
+M=/tmp/mut.$$   # one scratch worktree per invocation (concurrent invocations must not share one)
+cd /repo && git worktree add -q --detach $M HEAD
+trap 'git -C /repo worktree remove --force $M' EXIT
+cd $M
 echo "--- demo on unmodified code (expect PASS)"
 cp $DEMO $PKG/zz_seed_demo_test.go
 TESTS=$(grep -oE "^func (Test[A-Za-z0-9_]+)" $DEMO | awk '{print $2}' | paste -sd'|')
@@ -16,7 +18,6 @@ echo "--- demo with the change (expect FAIL)"
 (go test -vet=off -count=1 -run "^($TESTS)\$" ./$PKG 2>&1 | grep -E "^(--- FAIL|FAIL|ok|panic)" | head -5)
 rm -f $PKG/zz_seed_demo_test.go
 echo "--- existing test suite with the change (expect all ok)"
-(go test -vet=off -count=1 ./... 2>&1 | grep -v "^ok" | head -5)
+(timeout 900 go test -vet=off -count=1 -timeout 600s ./... 2>&1 | grep -v "^ok" | head -5)
 echo "--- check $P against the change"
-cd /verif && VERIF_REPO=/tmp/mut timeout 1500 ./check $P quick 2>&1 | grep -E "VIOLATION|KNOWN|INCONCLUSIVE|signature| quick:" | cut -c1-300 | head -12
-cd /tmp/mut && git checkout -q -- . && git clean -fdq
+cd /verif && VERIF_REPO=$M timeout 1500 ./check $P quick 2>&1 | grep -E "VIOLATION|KNOWN|INCONCLUSIVE|signature| quick:" | cut -c1-300 | head -12
